@@ -458,6 +458,8 @@ func (a *RF) Subst(m map[AtomID]*RF) *RF {
 				}
 				if changed {
 					res = s.MakeFn(at.Name, args...)
+				s.inheritFlags(res, at)
+					s.inheritFlags(res, at)
 				} else {
 					res = s.atomRF(id)
 				}
@@ -577,6 +579,7 @@ func (a *RF) Rewrite(f func(at *Atom, args []*RF) *RF) *RF {
 		if res == nil {
 			if changed {
 				res = s.MakeFn(at.Name, args...)
+				s.inheritFlags(res, at)
 			} else {
 				res = s.atomRF(id)
 			}
@@ -691,3 +694,17 @@ func (a *RF) LinearIn(name string) (terms map[AtomID]*big.Rat, rest *RF, ok bool
 }
 
 func bigOne() *big.Rat { return big.NewRat(1, 1) }
+
+// inheritFlags: an application rebuilt with rewritten arguments keeps the
+// integer-valuedness of the original (it stands for the same function).
+func (s *Sym) inheritFlags(res *RF, from *Atom) {
+	if !from.Int {
+		return
+	}
+	if ra := res.SingleAtom(); ra != nil && ra.Name == from.Name {
+		ra.Int = true
+		if from.Unsigned {
+			ra.Unsigned = true
+		}
+	}
+}
